@@ -88,6 +88,7 @@ C06_UNITS = [
 ]
 
 PROPS = {}
+V_LDIV = VUnit("l_div", "l_div", ["lemma L-div: checked_div / checked_rem / wrapping_rem == truncating quotient / remainder; (a/b)*b + a%b == a; overflow only for MIN / -1"])
 
 PROPS["C06"] = Prop(
     "C06", "proof",
@@ -96,6 +97,7 @@ PROPS["C06"] = Prop(
     "(no bound, loop-free): + - * against i128 arithmetic by SAT; / % by contract chaining "
     "(std primitive stubbed by its contract in Kani, meaning of the primitive proved in Verus lemma L-div).",
     kunits=C06_UNITS,
+    vunits=[V_LDIV],
     assumptions=[
         "integer literal decoding (lexer next_int, unary minus in the grammar) is not under contract",
         "range materialisation `a .. b` ((start..end).map(new_int).collect() inside eval_expr) is not under contract",
